@@ -1454,7 +1454,9 @@ FormatterToXML::writeAttrString(
 void
 FormatterToXML::accumCommentData(const XalanDOMChar*    data)
 {
-    accumContent(data);
+    // There are no character references inside a comment,
+    // so this cannot use accumContent().
+    accumName(data);
 }
 
 
@@ -1882,10 +1884,9 @@ FormatterToXML::accumNormalizedPIData(
             const XalanDOMChar*     theData,
             size_type               theLength)
 {
-    for (size_type i = 0; i < theLength; ++i)
-    {
-        accumContent(theData[i]);
-    }
+    // There are no character references inside a processing
+    // instruction, so this cannot use accumContent().
+    accumName(theData, 0, theLength);
 }
 
 
